@@ -1925,7 +1925,14 @@ def check_C17(ctx):
         w = dict(var=4, apply=8, ite=2, quantify=1, cofactor=1, rename=1, compose=1, hold=5,
                  release=1, gc=1, swap=1, sift=0.5, order=0.5)
         inject_at = sorted(rng.sample(range(60), rng.randint(2, 6)))
+        roots_at = rng.randrange(5, 25) if rng.random() < 0.4 else -1
         for i in range(rng.randint(15, 60)):
+            if i == roots_at:
+                # `bdd.roots` not empty: the reordering functions check (and must not keep) them
+                mine = [u for u in h.held if abs(u) in h.b._succ]
+                if mine:
+                    h.s.op(0, 'set_roots', ','.join(map(str, sorted(set(rng.sample(mine, min(len(mine), 3)))))))
+                    ctx.count('roots-set')
             if i in inject_at:
                 b = h.b
                 univ = h.names()
